@@ -103,16 +103,11 @@ def dstep (s : DState) (toks : List String) : DState × List String :=
     | none => (s, ["bad-op"])
   | ["ext", t] =>
     match t.toNat? with
-    | some t =>
-      if t > 255 || s.proc.handlers.contains (.app t) ||
-         (s.proc.handlers.filter (fun h => h != .tight)).length ≥ 256 then (s, ["bad-op"])
-      else (ev s (.register (.app t)), ["ok"])
+    | some t => if t > 255 then (s, ["bad-op"]) else (ev s (.register (.app t)), ["ok"])
     | none => (s, ["bad-op"])
   | ["unext", t] =>
     match t.toNat? with
-    | some t =>
-      if !s.proc.handlers.contains (.app t) then (s, ["bad-op"])
-      else (ev s (.unregister (.app t)), ["ok"])
+    | some t => if t > 255 then (s, ["bad-op"]) else (ev s (.unregister (.app t)), ["ok"])
     | none => (s, ["bad-op"])
   | ["cryptofail", b] =>
     match b? b with
